@@ -41,8 +41,14 @@ func NewMycatPartitionModShard(shardNum int) *MycatPartitionModShard {
 
 // FindForKey return result of calculated key
 func (m *MycatPartitionModShard) FindForKey(key interface{}) (int, error) {
-	h := hack.Abs(NumValue(key))
-	return int(h % int64(m.ShardNum)), nil
+	h := NumValue(key)
+	// Mycat: new BigInteger(key).abs().mod(count). Take |h| as uint64, because
+	// -MinInt64 overflows int64 (hack.Abs(MinInt64) is still negative).
+	abs := uint64(h)
+	if h < 0 {
+		abs = -abs
+	}
+	return int(abs % uint64(m.ShardNum)), nil
 }
 
 const (
